@@ -21,6 +21,14 @@ int Jac(realtype, N_Vector, N_Vector, SUNMatrix, void *, N_Vector, N_Vector, N_V
 int InitJac(SUNMatrix) { return 0; }
 #endif
 
+// the cuSPARSE variant integrates a batch of systems in one call: three of them here
+#ifdef USE_CUDA
+#define NSYS 3
+#else
+#define NSYS 1
+#endif
+#define NTOT (NSYS * NEQUATIONS)
+
 // ---------------------------------------------------------------- choice machinery
 static std::vector<int> g_prefix, g_taken, g_arity;
 static size_t g_pos;
@@ -98,7 +106,7 @@ int CVode(void *, realtype tout, N_Vector y, realtype *tret, int) {
     int c = position_offered(M.level, M.step) ? choose(nok + nfail) : 0;
     if (c < nok) {
         double d = tout - M.t_cur;
-        for (int i = 0; i < NEQUATIONS; i++) yd[i] += d;
+        for (sunindextype i = 0; i < N_VGetLength(y); i++) yd[i] += d;
         M.integrated += d; M.t_cur = tout; *tret = tout; M.last_ret = A.okflags[c];
         return A.okflags[c];
     }
@@ -106,7 +114,7 @@ int CVode(void *, realtype tout, N_Vector y, realtype *tret, int) {
     int f = A.flags[c / A.fracs.size()];
     double p = A.fracs[c % A.fracs.size()];
     double d = p * (tout - M.t_cur);
-    for (int i = 0; i < NEQUATIONS; i++) yd[i] += d;
+    for (sunindextype i = 0; i < N_VGetLength(y); i++) yd[i] += d;
     M.integrated += d; M.t_cur += d; *tret = M.t_cur; M.last_ret = f;
     if (f == -6) M.integrated = 0.0;            // the ladder restarts from the initial state
     if (!((f < 0 && f > -5) || f == -6)) M.fatal_seen = true;
@@ -124,23 +132,23 @@ static bool run_once(double dt, const double y0) {
     g_taken.clear(); g_arity.clear(); g_pos = 0;
     memset(&M, 0, sizeof(M)); M.tout_monotone = true; M.last_tout = -1.0;
     Naunet naunet;
-    NaunetData data;
-    data.nH = 1.0; data.Tgas = 10.0;
-    double y[NEQUATIONS];
-    for (int i = 0; i < NEQUATIONS; i++) y[i] = y0;
-    naunet.Init(1, 1e-20, 1e-5, 500);
-    int ret = naunet.Solve(y, dt, &data);
+    NaunetData data[NSYS];
+    for (int g = 0; g < NSYS; g++) { data[g].nH = 1.0; data[g].Tgas = 10.0; }
+    double y[NTOT];
+    for (int i = 0; i < NTOT; i++) y[i] = y0;
+    naunet.Init(NSYS, 1e-20, 1e-5, 500);
+    int ret = naunet.Solve(y, dt, data);
     // a second interval on the same object, whatever the first one did: with a well-behaved integrator it must
     // simply integrate dt again from the state it is given
     Mock keep = M;
     g_frozen = true;
-    double y2[NEQUATIONS];
+    double y2[NTOT];
     const double y0b = 0.75 * dt;
-    for (int i = 0; i < NEQUATIONS; i++) y2[i] = y0b;
+    for (int i = 0; i < NTOT; i++) y2[i] = y0b;
     memset(&M, 0, sizeof(M)); M.tout_monotone = true; M.last_tout = -1.0;
-    int ret2 = naunet.Solve(y2, dt, &data);
+    int ret2 = naunet.Solve(y2, dt, data);
     bool second_ok = ret2 == NAUNET_SUCCESS;
-    for (int i = 0; i < NEQUATIONS; i++) if (!(fabs((y2[i] - y0b) - dt) <= 1e-9 * dt)) second_ok = false;
+    for (int i = 0; i < NTOT; i++) if (!(fabs((y2[i] - y0b) - dt) <= 1e-9 * dt)) second_ok = false;
     g_frozen = false;
     M = keep;
     naunet.Finalize();   // closes the memstream: verif_log_buf/len are final now
@@ -149,15 +157,15 @@ static bool run_once(double dt, const double y0) {
     S.runs++;
     if (M.level < 8) S.by_level[M.level]++;
     const char *why = NULL;
-    char buf[512];
+    char buf[640];
     bool last_ok = M.last_ret >= 0;
     if (ret == NAUNET_SUCCESS) {
         S.succ++;
         double got = y[0] - y0;
         int worst = 0;   /* every equation (species and, if present, the temperature) must have advanced by dt */
-        for (int i = 0; i < NEQUATIONS; i++) if (fabs((y[i] - y0) - dt) > fabs((y[worst] - y0) - dt)) worst = i;
+        for (int i = 0; i < NTOT; i++) if (fabs((y[i] - y0) - dt) > fabs((y[worst] - y0) - dt)) worst = i;
         got = y[worst] - y0;
-        if (!(fabs(got - dt) <= 1e-9 * dt)) { snprintf(buf, sizeof buf, "returned SUCCESS but integrated %.17g of the requested %.17g (ratio %.12g) in equation %d of %d", got, dt, got / dt, worst, (int)NEQUATIONS); why = buf; }
+        if (!(fabs(got - dt) <= 1e-9 * dt)) { snprintf(buf, sizeof buf, "returned SUCCESS but integrated %.17g of the requested %.17g (ratio %.12g) in equation %d of %d (%d system(s))%s", got, dt, got / dt, worst, (int)NTOT, (int)NSYS, last_ok && !M.fatal_seen && M.reinits == 0 ? " although the integrator never failed" : ""); why = buf; }
         else if (!last_ok) { snprintf(buf, sizeof buf, "returned SUCCESS although the last integrator answer was the failure %d", M.last_ret); why = buf; }
     } else if (ret == NAUNET_FAIL) {
         S.fail++;
